@@ -262,6 +262,30 @@ pub fn check_wire(call: &Call, world: &mut World, ok: bool) -> Vec<Violation> {
         Entry::McJava { .. } | Entry::McGameJava { .. } => None, // handled below
         _ => None,
     };
+    let generic_java: Option<Option<RequestSettings>> = match &call.entry {
+        Entry::Generic { game_id: "minecraftjava", extra, .. } => {
+            Some(Some(RequestSettings {
+                hostname: extra.as_ref().and_then(|e| e.hostname.clone()).unwrap_or_else(|| "gamedig".to_string()),
+                protocol_version: extra.as_ref().and_then(|e| e.protocol_version).unwrap_or(-1),
+            }))
+        }
+        _ => None,
+    };
+    if let Some(settings) = &generic_java {
+        let exp = java_expected(settings, port);
+        for (_, _, d) in &tx {
+            if !java_matches(&exp, d) {
+                v.push(Violation::new(
+                    format!("{fam}|request-bytes"),
+                    "the Java handshake of the definition-driven query does not carry the host name / protocol version given in the extra request settings",
+                    hex(&exp),
+                    hex(d),
+                ));
+                break;
+            }
+        }
+        return v;
+    }
     if let Entry::McJava { settings } | Entry::McGameJava { settings } = &call.entry {
         let exp = java_expected(settings, port);
         for (_, _, d) in &tx {
@@ -388,6 +412,18 @@ impl Prop for C09 {
             4 => {
                 let b = c06::build(t, None);
                 (b.call, b.world, b.detail)
+            }
+            5 if stratum % 3 == 2 => {
+                // the definition-driven Java query with extra request settings (host name and / or
+                // protocol version given through ExtraRequestSettings)
+                let extra = crate::scenarios::gen_extra(&mut t);
+                let port = if t.draw(CFG, 2) == 0 { None } else { Some(1024 + t.draw(CFG, 60_000) as u16) };
+                let host = crate::models::minecraft::McHost::generate(&mut t, vec![crate::models::minecraft::Variant::Java]);
+                let call = Call { entry: Entry::Generic { game_id: "minecraftjava", extra: extra.clone(), level: 2 }, ip: SERVER_IP, port, default_port: 25565, timeout: None };
+                let d = json!({"family": "minecraft java through the definition-driven query", "extra": format!("{extra:?}")});
+                let mut w = World::new(t);
+                w.add_server(SocketAddr::new(SERVER_IP, port.unwrap_or(25565)), Proto::Tcp, Box::new(crate::models::minecraft::McTcpServer::new(host)));
+                (call, w, d)
             }
             5 => {
                 // Minecraft: specific variants the host speaks
